@@ -35,6 +35,7 @@ type c18Plan struct {
 	ConnDurMs int         `json:"max_conn_duration_ms"`
 	Dials     []c18Dial   `json:"dials"`
 	Callers   [][]c18Call `json:"callers"`
+	CloseIdleAtMs []int   `json:"close_idle_connections_at_ms,omitempty"` // CloseIdleConnections called during traffic
 }
 
 func init() { scenarios["C18"] = scenC18 }
@@ -61,6 +62,9 @@ func scenC18(e *Env) func() {
 			cs = append(cs, c18Call{ID: fmt.Sprintf("%d-%d", ci, i), TimeoutMs: Pick(e, 0, 20, 300, 1000, 10000), GapMs: Pick(e, 0, 0, 1, 50, 500), Method: Pick(e, "GET", "GET", "POST"), Act: a})
 		}
 		p.Callers = append(p.Callers, cs)
+	}
+	for i, n := 0, Pick(e, 0, 0, 1, 2, 4); i < n; i++ {
+		p.CloseIdleAtMs = append(p.CloseIdleAtMs, Pick(e, 0, 1, 10, 50, 200, 500, 2000))
 	}
 	e.Sample = p
 	e.Cfg.Holds, e.Cfg.HoldMax = Pick(e, 0, 0, 2), 100*time.Millisecond
@@ -185,6 +189,14 @@ func c18Run(e *Env, p *c18Plan) {
 					}
 				}
 			}
+		})
+	}
+	for _, at := range p.CloseIdleAtMs {
+		at := at
+		fsx = append(fsx, func() {
+			time.Sleep(time.Duration(at) * time.Millisecond)
+			hc.CloseIdleConnections()
+			e.Probe("close-idle-during-traffic")
 		})
 	}
 	if !WaitAll(3*time.Hour, "caller", fsx...) {
